@@ -359,6 +359,9 @@ pub fn record_topic(out: &mut Out, tier: &str, seed: u64) {
     for pre in [
         "$share/", "$share/g/", "$share/é/", "$share/gg/", "$share//", "$share/+/", "$share/#/", "$share/g+/",
         "$share", "$sharex/", "$shar/", "$Share/", "$SYS/", "$sys/", "$share/g/x/", "$share/€/€/",
+        // prefixes other brokers give a meaning to (an implementation that "supports" one of them must still be
+        // consistent with its own accessors): ordinary filters here
+        "$queue/", "$queue", "$local/", "$exclusive/", "$delayed/5/", "$oshare/g/", "$share/$queue/", "$SHARE/", "$Queue/",
     ] {
         enumerate(pre, &SUFFIX_CHARS, suf, &mut |s| all.push(s.to_string()));
     }
